@@ -76,13 +76,14 @@ class WalkOpts(object):
         self.avoid = set()
         self.hinted = False
         self.retarget = False
+        self.pk_rename = False
         for k, v in kw.items():
             assert hasattr(self, k), k
             setattr(self, k, v)
 
 
 def _free_field_name(m, banned=()):
-    used = {f['name'] for f in m['fields']} | {'id'} | set(banned)
+    used = {f['name'] for f in m['fields']} | {'id', S.pk_of(m)} | set(banned)
     return [n for n in S.FIELD_NAMES + EXTRA_FIELD_NAMES if n not in used]
 
 
@@ -195,6 +196,8 @@ def _candidates(spec, opts, feats):
                     cands.append(('ChangeField', app, name, f['name']))
             if 'RenameField' in opts.kinds and f['name'] not in refs and _free_field_name(m):
                 cands.append(('RenameField', app, name, f['name']))
+        if opts.pk_rename and 'RenameField' in opts.kinds and S.pk_of(m) == 'id':
+            cands.append(('RenameField', app, name, 'id'))
         if 'ChangeMeta' in opts.kinds and feats.meta:
             cands.append(('ChangeMeta', app, name, None))
         if 'RenameModel' in opts.kinds:
@@ -253,7 +256,7 @@ def draw_mutation(draw, spec, cand, feats, opts, counter):
             if not f['null'] or draw(st.integers(0, 2)) == 0:
                 init = draw(initial_for(f))
         # keep column names unique
-        cols = {S.column_of(x) for x in m['fields']} | {'id'}
+        cols = {S.column_of(x) for x in m['fields']} | {S.pk_of(m)}
         if f['kind'] != 'ManyToMany' and S.column_of(f) in cols:
             f['db_column'] = 'k_' + fn
         if f['kind'] == 'ManyToMany' and S.m2m_table_of(app, m, f) in S.all_tables(spec):
@@ -261,6 +264,11 @@ def draw_mutation(draw, spec, cand, feats, opts, counter):
         return {'kind': 'AddField', 'app': app, 'model': name, 'field': f, 'initial': init}
     if kind == 'DeleteField':
         return {'kind': 'DeleteField', 'app': app, 'model': name, 'name': fname}
+    if kind == 'RenameField' and fname == S.pk_of(m):
+        new = draw(st.sampled_from([n for n in ('key', 'code', 'pkid')
+                                    if S.get_field(m, n) is None]))
+        return {'kind': 'RenameField', 'app': app, 'model': name, 'old': fname, 'new': new,
+                'db_column': None, 'db_table': None}
     if kind == 'RenameField':
         f = S.get_field(m, fname)
         new = draw(st.sampled_from(_free_field_name(m)))
@@ -455,7 +463,8 @@ def walks(draw, spec, feats=None, opts=None):
         om = {k: list(v) for k, v in cur.get('_old_m2m_names', {}).items()}
         if mut['kind'] == 'RenameField':
             rm = S.get_model(cur, mut['app'], mut['model'])
-            if S.get_field(rm, mut['old'])['kind'] == 'ManyToMany':
+            rf = S.get_field(rm, mut['old'])
+            if rf is not None and rf['kind'] == 'ManyToMany':
                 om.setdefault(rm['uid'], []).append(mut['old'])
         nxt['_old_m2m_names'] = om
         ca = {k: list(v) for k, v in cur.get('_changed_attrs', {}).items()}
